@@ -1,12 +1,11 @@
 SPECIFICATION Spec
 CONSTANTS
-  Shapes <- ShapesT
-  Tilings <- TilingsT
+  Pairs <- PairsT
   MaxT = 3
   Variant = "ok"
   Dense = TRUE
-  Basis = "all"
-  Singles = "all"
+  Basis = "auto"
+  Singles = "first"
 INVARIANT TypeOK
 INVARIANT TileInv
 INVARIANT BigIsQuasiPeriodic
